@@ -6,6 +6,9 @@ require github.com/PapaCharlie/go-restli/v2 v2.0.0
 
 require (
 	github.com/dave/jennifer v1.7.0 // indirect
+	github.com/go-zookeeper/zk v1.0.3 // indirect
+	github.com/josharian/intern v1.0.0 // indirect
+	github.com/mailru/easyjson v0.7.7 // indirect
 	github.com/pkg/errors v0.9.1 // indirect
 )
 
